@@ -446,6 +446,12 @@ func genConflict(r *Rng, id int, tier string) *Sx {
 	case 3: // two NetworkPolicies with the same name in one namespace
 		if o := pick("np"); o != nil {
 			n := *genNetPol(r, cfg, o.Np.NS, o.Np.Name)
+			if r.P(40) { // the same cluster object exported twice: both copies carry the same metadata.uid
+				o.Np.UID = "7f3c1a"
+				n.UID = "7f3c1a"
+			} else if r.P(30) {
+				n.UID = "9e8d7c"
+			}
 			insertAt(Obj{Kind: "np", Np: &n})
 			kind = "dup-np-name"
 		}
@@ -474,7 +480,7 @@ func genConflict(r *Rng, id int, tier string) *Sx {
 		for j := 0; j < n; j++ {
 			l := []KV{{"app", "a"}}
 			if j == odd {
-				l = Pick(r, [][]KV{{{"app", "b"}}, {{"app", "a"}, {"tier", "c"}}, {}})
+				l = Pick(r, [][]KV{{{"app", "b"}}, {{"app", "a"}, {"tier", "c"}}, {}, {{"app", "a"}, {"canary", ""}}, {{"app", ""}}})
 			}
 			insertAt(Obj{Kind: "pod", Pod: &PodObj{NS: ns, Name: fmt.Sprintf("%s-x%d", own, j), Labels: l, OwnerKind: "ReplicaSet", OwnerName: own, HostIP: "192.168.49.2"}})
 		}
